@@ -214,9 +214,26 @@ var hostFns []func(string) string
 func runOpCase(c *Ctx, m string, opIdx int, a, b *variants.Variant) string {
 	o := binOpsV[opIdx]
 	op := fmt.Sprintf("op %s %s %s %s", m, o.name, encArg(a), encArg(b))
-	impl := safeCall(func() string { return outcome(o.f(mgrOf(m), a, b)) })
+	var first *variants.Variant
+	impl := safeCall(func() string {
+		r, err := o.f(mgrOf(m), a, b)
+		first = r
+		return outcome(r, err)
+	})
 	c.record(op, a.Type() != variants.Null && b.Type() != variants.Null)
 	c.count("op:" + o.name)
+	// a result is the caller's own object: writing to it must not change what the same operation returns
+	// next time (no result may alias a shared object such as the package-level Empty variant)
+	if first != nil && first != a && first != b && o.name != "getElement" && strings.HasPrefix(impl, "ok") {
+		again := safeCall(func() string {
+			first.SetAsString("\u00a7written-by-the-caller")
+			return outcome(o.f(mgrOf(m), a, b))
+		})
+		if again != impl {
+			c.fail(Failure{Kind: "oracle", Op: op, Impl: again, Spec: impl, Note: "after the caller wrote to the first result, the same operation on the same operands returns " + again + " instead of " + impl + ": results share an object"})
+			return impl
+		}
+	}
 	if strings.HasPrefix(impl, "panic:") || impl == "both" || impl == "neither" {
 		c.fail(Failure{Kind: "oracle", Op: op, Impl: impl, Note: "an operator must return exactly one of a result or an error, and never panic"})
 		return impl
@@ -480,6 +497,18 @@ func runConvCase(c *Ctx, m string, a *variants.Variant, t variants.VariantType) 
 	})
 	c.record(op, a.Type() != t && t != variants.Object && t != variants.Null)
 	c.count(fmt.Sprintf("target:%d", int(t)))
+	if res != nil && res != a && strings.HasPrefix(impl, "ok") {
+		again := safeCall(func() string {
+			res.SetAsString("\u00a7written-by-the-caller")
+			r2, err := mgrOf(m).Convert(a, t)
+			res = r2
+			return outcome(r2, err)
+		})
+		if again != impl {
+			c.fail(Failure{Kind: "oracle", Op: op, Impl: again, Spec: impl, Note: "after the caller wrote to the first result, the same conversion returns " + again + " instead of " + impl + ": results share an object"})
+			return impl
+		}
+	}
 	if strings.HasPrefix(impl, "panic:") || impl == "both" || impl == "neither" {
 		c.fail(Failure{Kind: "oracle", Op: op, Impl: impl, Note: "a conversion must return exactly one of a result or an error"})
 		return impl
